@@ -8,6 +8,7 @@ package main
 import (
 	"fmt"
 	"runtime/metrics"
+	"strings"
 
 	"verif/envio"
 	"verif/gen"
@@ -350,6 +351,14 @@ func roSpaces(mode int, tier string) []mc.Space {
 	all := seeds()
 	gs := genSeeds()
 	truncSeeds, substSeeds := gs, gs
+	if tier != "thorough" { // the token-dense packets are there for the cut points; their bytes are all alike
+		substSeeds = nil
+		for _, sd := range gs {
+			if !strings.Contains(sd.name, "dense-tokens") {
+				substSeeds = append(substSeeds, sd)
+			}
+		}
+	}
 	mb, iob, strLen, tail, stride := 1, 1, 3, 2, 5
 	if tier == "thorough" {
 		truncSeeds = all
@@ -371,6 +380,8 @@ func roSpaces(mode int, tier string) []mc.Space {
 	}
 	sp = append(sp, mc.Space{Name: "degenerate-single-field-records", H: roSeedsPlain(mode, degenerateRecords()), NoLevels: true, Isolate: true,
 		Rule: "for every supported Exif field alone in a record, in both byte orders: value shapes its parser does not expect (count 0; strings/dates of 0, 1 and 3 characters with and without NUL; a rational as two SHORTs / one LONG / no value; BYTE x4) x every accepting entry point"})
+	sp = append(sp, mc.Space{Name: "shared-value-bytes", H: roSeedsPlain(mode, amplificationSeeds()), NoLevels: true, Isolate: true,
+		Rule: "TIFF blocks whose 40-83 string fields name overlapping or identical value bytes (steps 0, 1, 64, 100; counts 1000-4096), alone and repeated as 24 and 64 Exif segments of one JPEG in alternating byte orders x every accepting entry point: the work and memory of a decode must follow the file's length, not the number of names for the same bytes"})
 	sp = append(sp, mc.Space{Name: "large-payload-malformations", H: roMalformations(mode, bigSeeds(), mb), Bound: mb, Isolate: true,
 		Rule: "generated files whose payloads exceed the internal buffers (CR3 with a 70 KB preview and a 9 KB XMP packet, in 32- and 64-bit box forms; TIFF with 5000- and 1500-byte strings; JPEG with 60 KB XMP and 65 KB APPn segments): every structural field x its malformation menu, up to the bound simultaneously; every accepting entry point"})
 	return sp
